@@ -97,9 +97,12 @@ CLAIMED = {
             "drives it, with the addresses returned by id() and the substrate contents as solver variables under "
             "CPython's id() contract (liveness observed through weak references), cache sizes forcing eviction; plus "
             "BatchReactor.fit (serial, real RDKit) on every order of a batch with look-alike substrates, cache "
-            "on/off/tiny, dedupe on/off, against single-entry runs.",
-            "Bounds: <=3 (4) entries x <=2 (3) rules; _execute replaced by an uninterpreted tag in a subclass; process "
-            "pools / worker counts / parallel validators are outside this family (OS level); batched clustering is "
+            "on/off/tiny, dedupe on/off, against single-entry runs; and the same with solver-chosen entry_n_jobs / "
+            "rule_n_jobs / parallel_rules / allow_nested over an in-order stand-in for joblib.Parallel (task cutting and "
+            "merging are the real code).",
+            "Bounds: <=3 (4) entries x <=2 (3) rules; _execute replaced by an uninterpreted tag in a subclass; job counts "
+            "1..3 x 1..4 on 2 (3) entries x 3 rules; real process pools, pickled reactor copies and parallel validators "
+            "are outside this family (OS level); batched clustering is "
             "decided under C13."),
     "C15": ("Bounded symbolic model checking of the real CRNHyperGraph: every operation code and operand of a history of "
             "<=3 (quick) / <=4 (thorough) edits is a solver variable, every feasible path is explored, and the "
@@ -129,8 +132,11 @@ CLAIMED = {
     "C20": ("Bounded symbolic model checking: siphon/trap search runs on a bipartite graph whose arc weights are unbounded "
             "symbolic integers (one path per presence pattern, oracle = definition formula over all subsets); PetriNet "
             "enabled/fire run on fully symbolic markings and weights; realizability verdicts and certificates are "
-            "checked against exhaustive orderings for all nets and flows in the bounds.",
-            "Bounds: <=4 species x <=3 reactions for siphons/traps, 3 places for firing, <=3 species x <=3 reactions, "
+            "checked against exhaustive orderings for all nets and flows in the bounds; the enumeration / max_size cut-off / "
+            "minimality filter of find_siphons and find_traps additionally runs on an arbitrary union-closed symbolic "
+            "predicate over subsets (stub of the per-subset predicate), which stands for nets with any number of reactions.",
+            "Bounds: <=4 species x <=3 reactions for siphon/trap predicates, 4 (thorough 5, cut by the wall budget) species "
+            "for the enumeration on a stubbed predicate, 3 places for firing, <=3 species x <=3 reactions, "
             "total flow <=5 for realizability; numpy-based persistence condition is outside."),
 }
 
